@@ -44,10 +44,12 @@ CHECKS = {
     'C07': (E3, 'fault_enumeration', 'exhaustive enumeration of cut points, writer byte budgets, read-error offsets and a header-field alphabet (corrupt headers in a memory-limited worker process)',
             'Every cut point of every frame of a 40-frame alphabet x chunkings; every writer byte budget x 2 failure modes; a read error at every offset alone/together with data; a header-size x body-size x version x available-bytes alphabet (body sizes to 2^64-1) executed in a child process under ulimit -v so that a fatal out-of-memory is observed as a dead worker; ReadHeader on every prefix of arbitrary bytes. Expected counts and error causes come from the statement.',
             'Trusted: the scripted reader/writer. Only the listed fault shapes are injected.', 'DESIGN.md section 4 C07'),
+    'C19': (E4, 'model_checking', 'preemption-bounded exhaustive schedule exploration (controlled scheduler on automatically instrumented source) + exact argument write-footprint and package-state snapshot oracles',
+            'Every unordered pair of a 43-entry function alphabet (and every triple of a 16-entry sub-alphabet) runs as a 2-/3-thread program on shared inputs under a cooperative scheduler; scheduling points are inserted by a source-to-source instrumenter, regenerated from the working tree on every run, before every statement touching package-level state, a receiver or an alias; all schedules with <=2 (thorough 3) preemptions are executed on the real code and each must reproduce the sequential results with the package state unchanged. Net effects are decided without scheduling: every call x parameter grid x 4 input sets runs with all arguments in read-only mmap memory (any store faults), the deep hash of every package-level variable must not change after a full warm-up, and results must not depend on call order. A free-running -race pass of the same bodies is a reported supplement.',
+            'Trusted: the instrumenter placing points at all shared-state accesses (syntactic, liberal), sequentially consistent memory at statement granularity. Races on memory the instrumenter does not see are left to the footprint oracle and the sampling race pass.', 'DESIGN.md section 4 C19'),
 }
 
 NOT_YET = {
-    'C19': 'check under construction in this round (E4 controlled scheduler over overlay-instrumented source, DESIGN.md section 4 C19); model checking applies, this is not a claim of inapplicability',
 }
 
 
